@@ -19,24 +19,20 @@ theorem repeat_dash (n : Nat) (s : St) (h : s.y + (n + 1) ≤ i32Max) :
     rw [ih _ (by simp only; omega)]
     simp only [Nat.add_assoc, Nat.add_comm 1]
 
-/-- `!<m>-~` from the start state: `m` cursor-down moves, then a data character -/
+/-- `!<m>-~` from the start state with `m` large enough to overflow the band arithmetic: an error.  (Since the size-limit repair
+    the repeat count itself is rejected first — `m * 6 + 6 > i32::MAX` implies `m > MAX_SIXEL_SIZE`; the cursor overflow checks
+    stay reachable through long runs of `-`.) -/
 theorem cursor_overflow_err (m : Nat) (hm : 0 < m) (h1 : m ≤ i32Max) (h2 : m * 6 + 6 > i32Max) (cs : List Char) :
     run { state := .repeat_, nums := [m] } ('-' :: '~' :: cs) = .err .invalidPictureSize := by
-  obtain ⟨n, rfl⟩ : ∃ n, m = n + 1 := ⟨m - 1, by omega⟩
   rw [run_cons]
-  have hp : parseChar { state := .repeat_, nums := [n + 1] } '-' = .ok { y := n + 1, nums := [n + 1] } := by
-    have := repeat_dash n { state := .repeat_, nums := [n + 1] } (by simp only; omega)
+  have hgt : m > maxSize := by
+    simp only [maxSize, Gen.Sixel.maxSixelSize]
+    simp only [i32Max] at h2
+    omega
+  have hp : parseChar { state := .repeat_, nums := [m] } '-' = .err .invalidPictureSize := by
     simp only [parseChar, List.head?_cons]
-    rw [if_neg (by decide)]
-    simp only [this, Out.andThen, Nat.zero_add]
-  rw [hp]
-  simp only [Out.andThen]
-  rw [run_cons]
-  have h3 : parseChar { y := n + 1, nums := [n + 1] } '~' = .err .invalidPictureSize := by
-    simp only [parseChar, sixelData, translate]
-    rw [if_neg (by decide), if_neg (by decide), if_neg (by decide), if_neg (by decide), if_neg (by decide), if_neg (by decide),
-      if_neg (by decide), if_neg (by decide), if_pos h2]
-  rw [h3]; rfl
+    rw [if_neg (by decide), if_pos hgt]
+  rw [hp]; rfl
 
 theorem ok_andThen {α β : Type} (a : α) (f : α → Out β) : (Out.ok a).andThen f = f a := rfl
 theorem err_andThen {α β : Type} (e : Err) (f : α → Out β) : (Out.err e : Out α).andThen f = .err e := rfl
